@@ -264,7 +264,7 @@ def programs(E, k, w):
 
 def harnesses(tier):
     q = tier == "quick"
-    T = 600 if q else 2400
+    T = 600 if q else 900
     S, PA, QA = (3, 2, 2) if q else (4, 3, 3)
     k, w, a = (2, 3, 2) if q else (3, 3, 2)
     return [
